@@ -272,7 +272,10 @@ class SymBytes:
         r = self.__eq__(o)
         return core.sym_not(r)
 
-    __hash__ = None
+    def __hash__(self):
+        if eng() is not None and getattr(eng(), "structural_bytes_eq", False):
+            return 0  # all symbolic byte strings collide; equality (structural) decides
+        raise TypeError("unhashable type: 'SymBytes'")
 
     def startswith(self, prefix):
         if isinstance(prefix, tuple):
